@@ -197,9 +197,11 @@ func (w *World) searchCounterexample(opts *RunOpts, c *Contract) (cex *Cex, why 
 			return nil, "result is not a plain value"
 		}
 	}
-	if (len(params) == 0 && machRecv == "") || len(params) > 3 {
-		return nil, "no parameters or more than three"
+	if (len(params) == 0 && machRecv == "") || len(params) > 7 {
+		return nil, "no parameters or more than seven"
 	}
+	// four to seven parameters: tiny domains, so that the product stays small
+	tiny := len(params) > 3
 	// generated in-package test
 	var b bytes.Buffer
 	pkgName := d.pkg.Types.Name()
@@ -220,6 +222,17 @@ func (w *World) searchCounterexample(opts *RunOpts, c *Contract) (cex *Cex, why 
 			continue
 		}
 		lits := domainLits(p.kind, len(params) > 1)
+		if tiny {
+			switch {
+			case p.kind == "int" || p.kind == "uint":
+				lits = []string{"0", "1", "2"}
+			case p.kind == "string":
+				lits = []string{`"A"`, `"B"`}
+			case strings.HasPrefix(p.kind, "[]"):
+				el := domainLits(p.kind[2:], true)
+				lits = []string{"nil", "{" + el[0] + "}", "{" + el[0] + ", " + el[1] + "}"}
+			}
+		}
 		var vals []string
 		for _, l := range lits {
 			if strings.HasPrefix(p.kind, "[]") {
